@@ -13,3 +13,11 @@ package pagination
 //@   ensures [C16] #only-validated-urls result0 == nil || result0.URL == "" ||
 //@              (urlReqOK(linkHref) && urlReqHost(linkHref) == pageURL.Host && !hasPrefix(linkHref, "javascript:") && linkHref != "" && result0.URL == hrefURL.String())
 //@   ensures [C16] #href-is-resolved-attribute result0 == nil || linkHref == absSpec(dom.GetAttribute(link, "href"), pageURL)
+
+// C01: index safety of the page-number difference (the common prefix never exceeds either string).
+//@ func (*PrevNextFinder).getPageDiff(pageURL, linkHref, skip)
+//@   requires skip >= 0
+//@   loop 0 invariant i >= skip && commonLen == 0 && maxLimit <= len(pageURL) && maxLimit <= len(linkHref)
+//@   loop 0 decreases maxLimit - i
+//@   loop 1 invariant 0 <= commonLen && commonLen <= len(pageURL) && commonLen <= len(linkHref)
+//@   loop 1 decreases commonLen
